@@ -8487,6 +8487,11 @@ func ruleCacheGen(prop string) ruleFn {
 			if pubOK {
 				r.ok("CACHE-GEN", key+" publish", "", "a parsed rule is cached only if nothing was invalidated since the event noted the count")
 			}
+			// (1a) the count that the publication is compared with was noted BEFORE the rules were read out of the state
+			// (seed C12-15: noted on a cache miss, after the read — an AddRule that fits between the read and the miss
+			// has bumped the count already, the comparison succeeds and the replaced rule is cached for good).
+			// Shape: state read c, then note n, then publication p with no state read between n and p.
+			cacheGenNoted(w, r, nt, owner, key)
 			// (1b) comparing the count and putting the rule in are one step with respect to an invalidation: both sides
 			// hold the cache's own mutex (a lock-free map with an atomic count is not enough: between the comparison
 			// and the store an invalidation fits, and the replaced rule is cached for good)
